@@ -514,6 +514,19 @@ def run(ctx):
                                                                    "; ".join(sorted(set(editor_problems))[:3] + ([enter_pr] if enter_pr else []))
                                                                    or "%d (code, modifiers) events interpreted in the editor" % len(editor_cache)),
                "A4 of InputState::handle per key event on an unknown editor state")
+    # ---- the dispatch code itself holds no operation that can panic.  Its operands are what the user typed (text with
+    # arbitrary multi-byte characters, numbers of any size): a byte-offset string operation, an index or a checked arithmetic
+    # operation there is a way to crash the session from the keyboard.  Today the count is zero; any site that appears is
+    # reported (a site that is safe needs a clause of its own that says why).
+    dfns = sorted(k for k in p.bodies if k.startswith("B::tui::Tui::") and not k.startswith("B::tui::Tui::run")
+                  and "::tests::" not in k)
+    chk.floor("dispatch functions of the TUI", len(dfns), 6)
+    dsites = [s_ for s_ in panics.enumerate_sites(p, dfns) if not s_["in_log"]]
+    chk.ob("dispatch/no-panic-sites", not dsites,
+           "the key and command dispatch (Tui::handle_event, Tui::handle_input and their helpers) contains no operation that can "
+           "panic on user-typed text or numbers", "emulator-2a/src/tui/mod.rs",
+           "; ".join("%s:%s %s %s" % (p.bodies[s_["fn"]].file, s_["ln"], s_["kind"], s_["detail"][:60]) for s_ in dsites[:4])
+           or "%d functions, no panic-capable site" % len(dfns), "panic-site enumeration over the MIR of the dispatch functions")
     # ---- the event loop's wall-clock arithmetic ------------------------------------------------------------------------
     # `Duration - Duration` (and the other operator forms on Duration / Instant) panic on under- or overflow.  Their operands in
     # the TUI are wall-clock readings, for which no static bound exists - in particular `elapsed()` grows between a comparison
